@@ -63,12 +63,12 @@ CHECKS = {
          "host CPU executes every variant", "runtime oracle by definition + guard pages, near-exhaustive sweep"),
 }
 ENGINES = [
- ("eng_ec", "harness/eng_ec.c", ["C03", "C13", "C05"], "direct calls of every EC kernel variant with guard-page placement, reference GF(2^8) oracle, update histories"),
- ("eng_crc", "harness/eng_crc.c", ["C04", "C05"], "every CRC/Adler variant vs bitwise reference, split composition"),
- ("eng_raid", "harness/eng_raid.c", ["C08", "C05"], "xor/pq gen/check variants vs reference, corruption injection, out-of-contract arguments"),
- ("eng_mem", "harness/eng_mem.c", ["C20", "C05"], "zero detect sweep"),
+ ("eng_ec", "harness/eng_ec.c", ["C03", "C13", "C05"], "direct calls of every EC kernel variant with guard-page placement, reference GF(2^8) oracle, update histories; dispatched entry points also called as written in source through erasure_code.h / gf_vect_mul.h"),
+ ("eng_crc", "harness/eng_crc.c", ["C04", "C05"], "every CRC/Adler variant vs bitwise reference, split composition; dispatched entry points also called through crc.h / crc64.h / igzip_lib.h"),
+ ("eng_raid", "harness/eng_raid.c", ["C08", "C05"], "xor/pq gen/check variants vs reference, corruption injection, out-of-contract arguments; dispatched entry points also called through raid.h"),
+ ("eng_mem", "harness/eng_mem.c", ["C20", "C05"], "zero detect sweep over every variant, the dispatcher and the call as written in source through mem_routines.h"),
  ("eng_deflate", "harness/eng_deflate.c", ["C01", "C07", "C10", "C11", "C14", "C17", "C05"], "compression driver: one-shot/streaming with adversarial schedules, reference inflate + zlib oracles, event log, flush-point and window monitors"),
- ("eng_inflate", "harness/eng_inflate.c", ["C02", "C06", "C07", "C11", "C05"], "decompression driver over grammar-generated, foreign, mutated and random streams; stateless and streaming schedules; reference verdict oracle"),
+ ("eng_inflate", "harness/eng_inflate.c", ["C02", "C06", "C07", "C11", "C05"], "decompression driver over grammar-generated (incl. near-maximal dynamic headers and the library default header with foreign tokens), foreign, mutated and random streams; stateless and streaming schedules; reference verdict oracle"),
  ("eng_huff", "harness/eng_huff.c", ["C18", "C05"], "custom Huffman tables: histogram families, header parser, per-symbol decode, round trips, install rules"),
  ("eng_hdr", "harness/eng_hdr.c", ["C19", "C05"], "gzip/zlib header writers and readers vs independent codec; chunking, overflow resume, arbitrary bytes"),
  ("eng_disp", "harness/eng_disp.c", ["C16"], "resolvers under simulated CPUID/XGETBV, API battery under the trap-flag instruction tracer; driver vlib/disp.py classifies executed instructions"),
